@@ -400,6 +400,40 @@ def delete_tolerant(ctx):
         ctx.check(bool(c), c[0] if c else fn, "%s deletes through clear_location" % q)
 
 
+def getstate_pure(ctx):
+    """Pickling a Memory / MemorizedFunc / MemorizedResult (done by Parallel for every task, by cloudpickle, by users)
+    must not change the live object: __getstate__ edits a COPY of __dict__.  The state it resets in that copy
+    (`_func_code_id`: the validity of the in-process source check) would otherwise be reset on the object in use."""
+    n = 0
+    for rel, m in ((MEM, ctx.repo.mod(MEM)),):
+        for q, fn in m.funcs.items():
+            if not q.endswith(".__getstate__"):
+                continue
+            n += 1
+            selfn = fn.args.args[0].arg
+            # names bound to the live dictionary itself
+            alias = {a.targets[0].id for a in nodes_of_type(fn, ast.Assign) if len(a.targets) == 1 and isinstance(a.targets[0], ast.Name) and unparse(a.value) in (selfn + ".__dict__", "vars(%s)" % selfn)}
+            bad_ = []
+            for node in ast.walk(fn):
+                tgt = None
+                if isinstance(node, (ast.Assign, ast.AugAssign, ast.Delete)):
+                    tgts = node.targets if not isinstance(node, ast.AugAssign) else [node.target]
+                    for t in tgts:
+                        if isinstance(t, ast.Subscript) and (dotted(t.value) in alias or unparse(t.value) in (selfn + ".__dict__", "vars(%s)" % selfn)):
+                            bad_.append(node)
+                        if isinstance(t, ast.Attribute) and dotted(t.value) == selfn:
+                            bad_.append(node)
+                if isinstance(node, ast.Call) and isinstance(node.func, ast.Attribute) and node.func.attr in ("update", "pop", "clear", "setdefault", "popitem", "__setitem__", "__delitem__") and \
+                        (dotted(node.func.value) in alias or unparse(node.func.value) == selfn + ".__dict__"):
+                    bad_.append(node)
+            ctx.check(not bad_, bad_[0] if bad_ else fn, "%s edits a copy of the instance dictionary, never the live object" % q,
+                      "%s writes into the live instance dictionary (`%s`): pickling the object resets that state on the object in use (e.g. the validated-source marker, so a changed function keeps being served from the cache)"
+                      % (q, unparse(bad_[0], 60) if bad_ else ""))
+            rets = [r for r in nodes_of_type(fn, ast.Return) if r.value is not None]
+            ctx.check(bool(rets), fn, "%s returns the state" % q)
+    ctx.floor(n, 3, "__getstate__ implementations in memory.py")
+
+
 def delete_folder_loop(ctx):
     """disk.delete_folder: the retry loop (Memory.clear of a directory another process is clearing too) ends on
     success, ends quietly when the directory is already gone, and gives up after a bounded number of failures."""
